@@ -65,25 +65,25 @@ func newServer(cfg Config) *mqtt.Server {
 // LogEnt is one entry of the common sequence: a storage-hook call ("w") or a packet the broker sent
 // to a client ("a": CONNACK, SUBACK, UNSUBACK, PUBACK, PUBREC, PUBREL, PUBCOMP, PUBLISH).
 type LogEnt struct {
-	N       int    `json:"n"`       // position in the common sequence, 1, 2, ...
-	K       string `json:"k"`       // "w" | "a"
-	W       int    `json:"w"`       // write number (0 for acknowledgements)
-	Dropped bool   `json:"dropped"` // the write was NOT forwarded to the store (issued after the crash point)
-	H       string `json:"h"`       // hook / packet name
-	C       string `json:"c"`       // client id
-	Conn    string `json:"conn"`    // connection name of the client object ("" = none: restored or unknown)
-	TO      bool   `json:"to"`      // the client object was already superseded (taken over) when the call was made
-	Expire  bool   `json:"expire"`  // OnDisconnect: expire argument
-	Pid     int    `json:"pid"`
-	Ty      int    `json:"ty"`      // packet type of the record / packet
-	Topic   string `json:"topic"`
-	M       string `json:"m"`
-	Qos     int    `json:"qos"`
-	R       int    `json:"r"`       // OnRetainMessage: r
+	N       int      `json:"n"`       // position in the common sequence, 1, 2, ...
+	K       string   `json:"k"`       // "w" | "a"
+	W       int      `json:"w"`       // write number (0 for acknowledgements)
+	Dropped bool     `json:"dropped"` // the write was NOT forwarded to the store (issued after the crash point)
+	H       string   `json:"h"`       // hook / packet name
+	C       string   `json:"c"`       // client id
+	Conn    string   `json:"conn"`    // connection name of the client object ("" = none: restored or unknown)
+	TO      bool     `json:"to"`      // the client object was already superseded (taken over) when the call was made
+	Expire  bool     `json:"expire"`  // OnDisconnect: expire argument
+	Pid     int      `json:"pid"`
+	Ty      int      `json:"ty"` // packet type of the record / packet
+	Topic   string   `json:"topic"`
+	M       string   `json:"m"`
+	Qos     int      `json:"qos"`
+	R       int      `json:"r"`     // OnRetainMessage: r
 	Fs      []string `json:"fs"`    // filters of OnSubscribed / OnUnsubscribed
-	Codes   []int  `json:"codes"`   // reason codes (OnSubscribed, SUBACK, UNSUBACK)
-	SP      bool   `json:"sp"`      // CONNACK: session present
-	RC      int    `json:"rc"`      // reason code of the packet
+	Codes   []int    `json:"codes"` // reason codes (OnSubscribed, SUBACK, UNSUBACK)
+	SP      bool     `json:"sp"`    // CONNACK: session present
+	RC      int      `json:"rc"`    // reason code of the packet
 	cl      *mqtt.Client
 }
 
@@ -271,11 +271,17 @@ func (c *CrashHook) OnPacketSent(cl *mqtt.Client, pk packets.Packet, b []byte) {
 	c.mu.Unlock()
 }
 
-func (c *CrashHook) StoredClients() ([]storage.Client, error)             { return c.inner.StoredClients() }
-func (c *CrashHook) StoredSubscriptions() ([]storage.Subscription, error) { return c.inner.StoredSubscriptions() }
-func (c *CrashHook) StoredInflightMessages() ([]storage.Message, error)   { return c.inner.StoredInflightMessages() }
-func (c *CrashHook) StoredRetainedMessages() ([]storage.Message, error)   { return c.inner.StoredRetainedMessages() }
-func (c *CrashHook) StoredSysInfo() (storage.SystemInfo, error)           { return c.inner.StoredSysInfo() }
+func (c *CrashHook) StoredClients() ([]storage.Client, error) { return c.inner.StoredClients() }
+func (c *CrashHook) StoredSubscriptions() ([]storage.Subscription, error) {
+	return c.inner.StoredSubscriptions()
+}
+func (c *CrashHook) StoredInflightMessages() ([]storage.Message, error) {
+	return c.inner.StoredInflightMessages()
+}
+func (c *CrashHook) StoredRetainedMessages() ([]storage.Message, error) {
+	return c.inner.StoredRetainedMessages()
+}
+func (c *CrashHook) StoredSysInfo() (storage.SystemInfo, error) { return c.inner.StoredSysInfo() }
 
 // ------------------------------------------------------------------------------------------ view
 
@@ -563,6 +569,16 @@ func (s *StoreHistory) Step(o Op) *SLine {
 
 func (s *StoreHistory) closeConns() {
 	h := s.History
+	for _, n := range h.order { // let every handler that is held at a schedule gate run to its end
+		c := h.conns[n]
+		c.gmu.Lock()
+		c.armed = map[string]bool{}
+		c.gmu.Unlock()
+		select {
+		case c.release <- struct{}{}:
+		default:
+		}
+	}
 	for _, n := range h.order {
 		h.conns[n].theirs.Drop()
 	}
